@@ -235,9 +235,12 @@ def py_column(kind, values):
         sub = specs()[kind[1]]
         return build_ctor(sub, [tuple(v) for v in values])
     if kind in GT_KINDS:
+        # what the VCF reader itself builds: the row encoding's code matrix wrapped in an EncodedArray (handing the
+        # constructor base-encoded text rows is judged separately, in the construction clause)
+        enc = T['decl'][kind]
         if not values:
-            return []
-        return T['as_encoded_array']([py_cell(kind, v) for v in values])
+            return T['EncodedArray'](np.zeros((0, 1), dtype=np.int8), enc)
+        return T['EncodedArray'](enc.encode(T['as_encoded_array']([py_cell(kind, v) for v in values])), enc)
     return [py_cell(kind, v) for v in values]
 
 
@@ -343,8 +346,8 @@ def column_values(kind, col):
         return obs_rows(col, specs()[kind[1]]['fields'])
     if not isinstance(col, (np.ndarray, T['StringArray'], T['EncodedArray'], T['EncodedRaggedArray'], T['RaggedArray'])):
         raise Unobservable('column is a %s' % type(col).__name__)
-    if kind in GT_KINDS and isinstance(col, T['EncodedArray']):
-        raw = np.asarray(col.raw())
+    if kind in GT_KINDS and isinstance(col, (T['EncodedArray'], np.ndarray)):
+        raw = np.asarray(col.raw()) if isinstance(col, T['EncodedArray']) else col
         if raw.ndim != 2:
             raise Unobservable('genotype column with ndim %d' % raw.ndim)
         return [gt_decode(kind, r) for r in raw.tolist()]
@@ -386,6 +389,8 @@ def obs_entry_value(kind, v):
     if kind in GT_KINDS:
         if isinstance(v, T['EncodedArray']):
             return gt_decode(kind, np.asarray(v.raw()).ravel().tolist())
+        if isinstance(v, np.ndarray) and v.ndim == 1 and v.dtype.kind in 'iu':
+            return gt_decode(kind, v.tolist())
         return ('not-encoded', type(v).__name__)
     if kind in TEXT_KINDS or kind == 'strand':
         if isinstance(v, T['EncodedRaggedArray']) or not isinstance(v, T['EncodedArray']):
@@ -449,6 +454,8 @@ def obs_py_value(kind, v):
     x = _py(v)
     if kind in GT_KINDS and isinstance(x, str):
         return tuple(g for g in x.split('\t') if g)
+    if kind in GT_KINDS and isinstance(x, tuple) and all(isinstance(c, int) for c in x):
+        return gt_decode(kind, x)
     return x
 
 
@@ -537,8 +544,10 @@ def ragged_view_kinds(t, fields):
     out = []
     for n, k in fields:
         c = getattr(t, n, None)
-        if isinstance(c, T['RaggedArray']) and type(getattr(c, '_shape', None)).__name__ == 'RaggedView':
+        if isinstance(c, T['RaggedArray']) and type(getattr(c, '_shape', None)).__name__.startswith('RaggedView'):
             out.append(kind_name(k))
+        elif is_table_kind(k) and isinstance(c, T['BNPDataClass']):
+            out.extend(ragged_view_kinds(c, specs()[k[1]]['fields']))
     return sorted(set(out))
 
 
@@ -723,6 +732,19 @@ def stored_class(col):
     return cls
 
 
+def type_features(kind, col):
+    """{'declared': class of the declared column type, 'given': class of what was stored instead}"""
+    d = feat_kind(kind)
+    st = stored_class(col)
+    if d in ('int', 'float', 'bool'):
+        return {'declared': 'numeric', 'given': 'float' if st == 'float' else 'non-numeric'}
+    if d == 'ragged-num':
+        return {'declared': d, 'given': 'float' if st in ('float', 'ragged-float') else 'flat' if st in ('int', 'bool') else 'non-numeric'}
+    if d == 'table':
+        return {'declared': d, 'given': 'not-a-table'}
+    return {'declared': d, 'given': st}
+
+
 def check_table(t, fields, expected_rows, constructing):
     """constructing: False, True (every column was supplied by the caller) or the list of supplied field names.
     -> (None, rows) or ((clause, kinds, expected, observed), None)"""
@@ -738,7 +760,7 @@ def check_table(t, fields, expected_rows, constructing):
         bad = [(name, k) for name, k in fields if (constructing is True or name in constructing) and not type_ok(k, getattr(t, name))]
         if bad:
             name, k = bad[0]
-            return ('construction-stores-undeclared-type', {'declared': feat_kind(k), 'given': stored_class(getattr(t, name))},
+            return ('construction-stores-undeclared-type', type_features(k, getattr(t, name)),
                     {name: kind_name(k) for name, k in bad}, {name: describe(getattr(t, name)) for name, _ in bad}), None
     try:
         rows = obs_rows(t, fields)
@@ -763,7 +785,9 @@ def op_label(op):
     k = op[0]
     if k in ('sl', 'step2', 'rev'):
         return 'slice'
-    if k in ('cat', 'rt', 'mask', 'fancy'):
+    if k == 'cat':
+        return 'cat:' + op[1].split('_')[0]
+    if k in ('rt', 'mask', 'fancy'):
         return '%s:%s' % (k, op[1])
     if k == 'add':
         return 'add:' + op[1]
@@ -789,7 +813,7 @@ def transition(t, root, op, model, isolate=True):
     def culprit(default):
         if own_field_kind is not None:
             return own_field_kind
-        if not isolate or len(fields_before) == 1:
+        if not isolate:
             return default if len(fields_before) != 1 else feat_kind(fields_before[0][1])
         return isolate_kinds(t, root, op, model) or default
 
@@ -860,35 +884,43 @@ def proj_class(kind):
 
 
 def isolate_kinds(t, root, op, model):
-    """which column kinds reproduce a failure of a column-agnostic operation on a one-column table holding that column"""
+    """Which column classes reproduce a failure of a column-agnostic operation on a one-column table holding that column.
+    'every-kind' if a plain int (or float) column of the same length fails as well (the failure does not depend on the kind)."""
+    def fails_alone(pt, proot, pm):
+        if op[0] == 'obs':
+            return bool(observe_state(pt, pm, only=op[1], isolate=False))
+        return transition(pt, proot if proot is not None else (pt, pm.rows), op, pm, isolate=False)['status'] == 'fail'
+
     bad = []
     try:
+        n = len(model.rows)
+        kinds_here = {feat_kind(k) for k in model.kinds}
+        anchor_kind = 'float' if kinds_here == {'int'} else 'int'
+        arows = [(tm.cell(anchor_kind, i, 0),) for i in range(n)]
+        apc = proj_class(anchor_kind)
+        at = apc(py_column(anchor_kind, [r[0] for r in arows]))
+        aroot = None
+        if root is not None:
+            rrows = [(tm.cell(anchor_kind, i, 0),) for i in range(len(root[1]))]
+            aroot = (apc(py_column(anchor_kind, [r[0] for r in rrows])), rrows)
+        if fails_alone(at, aroot, tm.TableModel(['k'], [anchor_kind], arows)):
+            return 'every-kind'
+        root_names = [f.name for f in dataclasses.fields(root[0])] if root is not None else []
         for j, (name, kind) in enumerate(zip(model.fields, model.kinds)):
             kn = feat_kind(kind)
             if kn in bad:
                 continue
             pc = proj_class(kind)
             pt = pc(getattr(t, name))
-            rfields = [n for n in model.fields]
             proot = None
-            if root is not None and name in [f.name for f in dataclasses.fields(root[0])]:
-                rj = [f.name for f in dataclasses.fields(root[0])].index(name)
+            if name in root_names:
+                rj = root_names.index(name)
                 proot = (pc(getattr(root[0], name)), [(r[rj],) for r in root[1]])
             pm = tm.TableModel(['k'], [kind], [(r[j],) for r in model.rows])
-            if op[0] == 'obs':
-                fails = observe_state(pt, pm, only=op[1], isolate=False)
-                if fails:
-                    bad.append(kn)
-            else:
-                if op[0] == 'cat' and op[1] in ('root_r', 'root_l') and proot is None:
-                    continue
-                r = transition(pt, proot, op, pm, isolate=False)
-                if r['status'] == 'fail':
-                    bad.append(kn)
+            if fails_alone(pt, proot, pm):
+                bad.append(kn)
     except Exception:
         return None
-    if len(bad) > 1 and set(bad) == {feat_kind(k) for k in model.kinds}:
-        return 'every-kind'
     return '+'.join(sorted(set(bad))) if bad else 'only-combined'
 
 
@@ -921,13 +953,15 @@ def observe_state(t, model, only=None, isolate=True, counter=None):
         f = {'op': name, 'rows0': n == 0}
         f.update(_exc_features(e))
         kinds = None
-        if len(fields) == 1:
-            kinds = feat_kind(fields[0][1])
-        elif isolate:
-            kinds = isolate_kinds(t, root, ('obs', name), model)
-        f['kinds'] = kinds or '?'
         if name in ('scalar-index', 'iterate'):
             f['ragged_view'] = bool(ragged_view_kinds(t, fields))
+        if f.get('ragged_view'):
+            kinds = 'not-isolated'      # fact recorded instead: the table has a ragged column whose shape is a view
+        elif isolate:
+            kinds = isolate_kinds(t, root, ('obs', name), model)
+        elif len(fields) == 1:
+            kinds = feat_kind(fields[0][1])
+        f['kinds'] = kinds or '?'
         fails.append(('observation-raises', f, 'the observation succeeds', '%s: %s' % (type(e).__name__, str(e)[:200]), tb_string(e)))
 
     def differs(name, exp, obs, cols=None):
@@ -1009,7 +1043,7 @@ def run_history(tname, n, route, hist, res=None, full_obs='new', seen=None, judg
     root_rows = tm.rows_for(spec, n, S)
     model = tm.TableModel([f for f, _ in spec['fields']], [k for _, k in spec['fields']], root_rows)
     out = {'fails': [], 'calls': 1, 'status': 'ok', 'model': model}
-    feats0 = {'op': 'build:' + route, 'rows0': n == 0}
+    feats0 = {'op': 'build:tuples' if route == 'tuples' else 'build', 'rows0': n == 0}
     try:
         t = build_root(spec, root_rows, route)
         root = (t, root_rows)
@@ -1072,6 +1106,12 @@ def run_history(tname, n, route, hist, res=None, full_obs='new', seen=None, judg
 def build_culprits(spec, rows, route):
     bad = []
     try:
+        kinds_here = {feat_kind(k) for _, k in spec['fields']}
+        anchor = 'float' if kinds_here == {'int'} else 'int'
+        try:
+            build_root({'fields': [('k', anchor)], 'cls': proj_class(anchor)}, [(tm.cell(anchor, i, 0),) for i in range(len(rows))], route)
+        except Exception:
+            return 'every-kind'
         for j, (name, kind) in enumerate(spec['fields']):
             sub = {'fields': [('k', kind)], 'cls': proj_class(kind)}
             try:
@@ -1153,12 +1193,13 @@ def explore(res, tname, n, route, depth, deadline, split=(0, 1)):
 
 # ====================================================================== construction clause (shape A)
 GIVEN = ['text', 'numeric-text', 'ints', 'floats', 'bools', 'nested-ints', 'nested-text', 'none', 'text-array', 'float-array',
-         'object-array', 'encoded-text', 'string-array', 'ragged-ints', 'table', 'entries', 'scalar-int', 'scalar-text', 'dicts']
+         'object-array', 'encoded-text', 'string-array', 'ragged-ints', 'table', 'entries', 'scalar-int', 'scalar-text', 'dicts',
+         'genotype-text']
 GIVEN_CLASS = {'text': 'text', 'numeric-text': 'text', 'text-array': 'text', 'encoded-text': 'text', 'string-array': 'text',
                'scalar-text': 'scalar', 'ints': 'int', 'bools': 'int', 'floats': 'float', 'float-array': 'float',
                'nested-ints': 'nested', 'nested-text': 'nested', 'ragged-ints': 'nested', 'none': 'none', 'object-array': 'object',
-               'table': 'table', 'entries': 'entries', 'scalar-int': 'scalar', 'dicts': 'object'}
-DECLARED = ['int', 'float', 'bool', 'optint', 'str', 'id', 'intlist', 'dna', 'strand', 'qual', 'table']
+               'table': 'table', 'entries': 'entries', 'scalar-int': 'scalar', 'dicts': 'object', 'genotype-text': 'text'}
+DECLARED = ['int', 'float', 'bool', 'optint', 'str', 'id', 'intlist', 'dna', 'strand', 'qual', 'table', 'gt']
 
 
 def given_value(g):
@@ -1173,6 +1214,7 @@ def given_value(g):
         'ragged-ints': lambda: T['RaggedArray']([[1], [2, 3]]), 'table': lambda: inner([1, 2], ['p', 'q']),
         'entries': lambda: [inner.dataclass(1, 'p'), inner.dataclass(2, 'q')], 'scalar-int': lambda: 7, 'scalar-text': lambda: 'xy',
         'dicts': lambda: [{'a': 1}, {'a': 2}],
+        'genotype-text': lambda: T['as_encoded_array'](['0/1\t1/1\t', '0|0\t./.\t']),
     }[g]()
 
 
@@ -1181,6 +1223,7 @@ VALID_GIVEN = {
     'int': {'ints', 'bools'}, 'optint': {'ints', 'bools'}, 'float': {'ints', 'floats', 'bools', 'float-array'}, 'bool': {'bools'},
     'str': {'text', 'numeric-text', 'encoded-text'}, 'id': {'text', 'numeric-text', 'string-array'},
     'intlist': {'nested-ints', 'ragged-ints'}, 'qual': {'nested-ints', 'ragged-ints'}, 'table': {'table'}, 'dna': set(), 'strand': set(),
+    'gt': {'genotype-text'},
 }
 
 
@@ -1206,7 +1249,7 @@ def construct_case(declared, given, route):
         return 'raises:' + type(e).__name__, None, 1
     col = getattr(t, 'k')
     if not type_ok(kind, col):
-        feats['given'] = stored_class(col)
+        feats.update(type_features(kind, col))
         return 'fail', ('construction-stores-undeclared-type', feats, 'column of declared type %s, or an exception' % declared,
                         describe(col) + ' ' + repr(col)[:80], None), 1
     try:
